@@ -77,7 +77,7 @@ theorem lexEmitTagLexeme_c (c : Common) (l : LexRegs) (x : Ctx κ) (sim : Sim) (
 theorem lexStampTag_state (c : Common) (sim : Sim) (tok : TagOutline) : (lexStampTag c sim tok).1.state = c.state := by
   cases tok <;> rfl
 
-theorem lexEmitTag_state (c : Common) (l : LexRegs) (x : Ctx κ) : (lexEmitTag env inp c l x).1.c.state = c.state := by
+theorem lexEmitTag_cstate (c : Common) (l : LexRegs) (x : Ctx κ) : (lexEmitTag env inp c l x).1.c.state = c.state := by
   unfold lexEmitTag
   split
   · rfl
@@ -98,7 +98,7 @@ theorem lexEmitTag_state (c : Common) (l : LexRegs) (x : Ctx κ) : (lexEmitTag e
           rw [lexEmitTagLexeme_c, lexStampTag_state]
           exact lexHandleFeedback_state (c := { c with lastTextType := .data }) (c' := cs.1) (s' := cs.2) hh
 
-theorem lexAct_state (a : ActName) (c : Common) (l : LexRegs) (x : Ctx κ) :
+theorem lexAct_cstate (a : ActName) (c : Common) (l : LexRegs) (x : Ctx κ) :
     (lexAct env a inp c l x).1.c.state = c.state := by
   cases a <;> simp only [lexAct]
   case emitText => rw [lexEmitText_c]
@@ -107,7 +107,7 @@ theorem lexAct_state (a : ActName) (c : Common) (l : LexRegs) (x : Ctx κ) :
   case emitCurrentTokenAndEof => rw [andThen_eof_c, lexEmitNonTag_c]
   case emitRawWithoutToken => rw [lexEmitNonTag_c]
   case emitRawWithoutTokenAndEof => rw [andThen_eof_c, lexEmitNonTag_c]
-  case emitTag => exact lexEmitTag_state c l x
+  case emitTag => exact lexEmitTag_cstate c l x
   all_goals (first
     | rfl
     | (split <;> rfl)
@@ -116,7 +116,7 @@ theorem lexAct_state (a : ActName) (c : Common) (l : LexRegs) (x : Ctx κ) :
 theorem act_state (a : ActName) (m : M κ) : (act env a inp m).1.c.state = m.c.state := by
   obtain ⟨c, r, x⟩ := m
   cases r with
-  | lexer l => exact lexAct_state a c l x
+  | lexer l => exact lexAct_cstate a c l x
   | scanner s => exact (scanAct_frame a c s x).1.state
 
 theorem runCalls_state (cs : List Call) (m : M κ) : (runCalls env inp cs m).1.c.state = m.c.state := by
